@@ -442,14 +442,16 @@ def eval_codec_combo(ev, part, pp, al, ms, sids, norm, method, info):
     out = [[a, (None if not math.isfinite(b) else b), (None if not math.isfinite(c) else c), d] for a, b, c, d in out]
     # the group means of the float32 columns and the rescaling are evaluated in float32; z*std + mean cancels, so for
     # `standardized` the float32 roundings are weighed with the size of the cancelling terms
-    rtol = T32
+    # (a timing value of magnitude M carries a float32 rounding of M * 2^-24: ill-conditioned tempo curves, e.g. the
+    # smoothed derivative next to a 1e-4 beat score interval, give timings of thousands of seconds)
+    rtol = T32 * max(1.0, float(np.max(np.abs(params["timing"]))) if len(params) else 1.0)
     if norm == "beat_period_standardized" and len(params):
         zs = np.abs(params["beat_period_standardized"].astype(float) * params["beat_period_std"].astype(float))
         mu = float(params["beat_period_mean"][0])
         b = np.abs(params["beat_period"].astype(float))
         amp = float(np.max((3 * zs + 2 * mu + b) / np.maximum(b, 1e-300)))
         span = float(so.max() - so.min()) + float(sd.max()) + 1.0
-        rtol = T32 * max(8.0, amp, span * (3 * float(zs.max()) + 2 * mu))
+        rtol = max(rtol, T32 * max(8.0, amp, span * (3 * float(zs.max()) + 2 * mu)))
     ev.impl.append(("@approx", out, rtol))
 
     # ---- oracle: decode(encode(x)) = x for every matched note
@@ -558,7 +560,18 @@ def eval_time_maps(ev, part, pp, al, remove_orn, rng):
     smp = sorted(zip(mp, us))
     slope = max([abs((b[1] - a[1]) / (b[0] - a[0])) if b[0] != a[0] else float("inf") for a, b in zip(smp, smp[1:])] + [1.0])
     amp = max(1.0, slope) * max([1.0] + [abs(x) for x in mp])
-    ev.impl.append(("@approx", [kn, vs], T32))
+
+    def extra(xs, d0, d1):
+        # extrapolating by d beyond a segment of width w multiplies an error of the segment's end points by 1 + 2 d / w
+        xs = sorted(xs)
+        if len(xs) < 2:
+            return 1.0
+        w0, w1 = xs[1] - xs[0], xs[-1] - xs[-2]
+        return 1.0 + 2 * max(d0 / w0 if w0 > 0 else float("inf"), d1 / w1 if w1 > 0 else float("inf"))
+
+    amp_s = extra(us, 1.5, 2.25) * max([1.0] + [abs(x) for x in mp])
+    amp = amp * extra(mp, 0.75, 1.5)
+    ev.impl.append(("@approx", [kn, vs], T32 * amp_s if math.isfinite(amp_s) else 1e30))
     ev.impl.append(("@approx", vp, T32 * amp if math.isfinite(amp) else 1e30))
     # oracle
     n = len(knots)
